@@ -6,6 +6,35 @@ import os
 VERIF = os.path.dirname(os.path.dirname(os.path.abspath(__file__)))
 
 CHECKS = {
+    "C07": dict(
+        technique="transport state machine (Transport.tla: target completes -> binding reports -> library maps, command "
+                  "objects re-executed) model-checked by TLC; every (history, status 0..255, sense, raw flag) case replayed "
+                  "on real SCSIDevice/ISCSIDevice over stand-in bindings and through three facade routes; random fault "
+                  "sequences judged by Trace_Transport",
+        text="TLC checks NoSilentFailure, SenseFaithful, NamedStatusNamedError, GoodReturns on the design for all "
+             "histories of two re-usable command objects; the exported cases drive the real devices with all 256 status "
+             "values, four sense kinds, stale-sense histories, raw on/off, direct and facade routes.",
+        note="The contracts of cython-sgio / cython-iscsi are rendered by harness/fakes (not installable here). Over SG_IO "
+             "the binding hides the status byte, so any exception is accepted for non-GOOD, non-CHECK-CONDITION statuses.",
+        ref="6 C07"),
+    "C15": dict(
+        technique="finite handle/node state machine (Handle.tla) model-checked exhaustively by TLC (unbounded histories); "
+                  "all action sequences up to a depth plus random long ones executed on a real SCSIDevice over tmpfs "
+                  "nodes and validated step by step by Trace_Handle",
+        text="Every history over {execute, replug, unplug, plug, close-failure, close, with-exit normal/exception} up to "
+             "length 4 (thorough 6) for detection on/off and ro/rw is run against the real class with real inodes; each "
+             "observed step (outcome, handle used vs node at path, live OS handles) must be a successor the spec allows.",
+        note="Inode-based detection (create+rename gives a new inode); close failure injected on a wrapper of the file "
+             "object returned by the module-level open(); environment actions only between library calls.",
+        ref="6 C15"),
+    "C19": dict(
+        technique="Bindings.tla (prefix rules on character sequences, refusal before open/connect) model-checked by TLC; "
+                  "one interpreter per binding configuration records imports / codec probes / init_device calls; events "
+                  "judged by Trace_Bindings",
+        text="Exhaustive over 4 configurations x every module x 16 device strings x ro/rw x default/explicit initiator.",
+        note="Absent binding = meta-path blocker; present = stand-in modules; open() observed by shadowing the builtin in "
+             "the device module.",
+        ref="6 C19"),
     "C01": dict(
         technique="T10 CDB layouts transcribed into TLA+ (T10Cdb.tla); TLC enumerates the star+flags argument space "
                   "with the transcription's laws as invariants (MC_T10Cdb) and exports predicted CDBs replayed into the "
